@@ -760,7 +760,7 @@ func (fc *FuncCtx) evalSpecCall(st *State, e *SExpr, sc *specCtx) Val {
 				}
 			}
 		}
-		if c := fc.eng.contractFor(fv.FnObj); c != nil && c.Pure {
+		if c := fc.eng.contractFor(fv.FnObj); c != nil && c.Pure && fc.contractApplies(c, fv.Recv) {
 			return fc.applyContract(st, fv.FnObj, c, fv.Recv, args, resT, token.NoPos, e.Name == "...")
 		}
 		return fc.defaultCall(st, fv.FnObj, fv.Recv, args, resT, token.NoPos)
